@@ -237,7 +237,7 @@ var modeContents = []string{
 	"  on 2024-01-05  ", "\ton 2024-01-05", "on  2024-01-05", "on\t2024-01-05", "on 2024-13-45", "off x", "On 2024-01-05",
 	"ON", "offx 2024-01-05", "local2024-01-05", "", " ", "\n", "on 2024-01-05 extra", "on 0001-01-01", "on 0000-01-01",
 	"off 9999-12-31", "on 2023-02-29", "on ", " off ", "on 2024-01-05", "off  2024-01-05",
-	"local 2024-1-5", "lo cal", "\xffon", "on\xc2", "o", "off 2024-01-05T00:00:00Z", "on 2024-01-05\r\n",
+	"local 2024-1-5", "lo cal", "onx", "only 2024-01-05", "online", "locally 2024-01-05", "offline", "of", "loca", "\xffon", "on\xc2", "o", "off 2024-01-05T00:00:00Z", "on 2024-01-05\r\n",
 }
 
 func (u *unit) genModeFile() []byte {
